@@ -566,14 +566,19 @@ def rule_ex8(A: Analysis, rep, F: ExecFacts):
             continue
         if isinstance(par.test, ast.Name):
             vals = [x.value for x in A.defs(fi, par.test.id) if isinstance(x, ast.Assign)]
+            for v in vals:
+                if isinstance(v, ast.Constant) and v.value is False:
+                    continue
+                if isinstance(v, ast.Call) and A.res.is_call_to(v, "Executor._launch_ops_if_able", "Executor._wait_for_next_inflight_op"):
+                    continue
+                okb = False
         else:
-            vals = [par.test]
-        for v in vals:
-            if isinstance(v, ast.Constant) and v.value is False:
-                continue
-            if isinstance(v, ast.Call) and A.res.is_call_to(v, "Executor._launch_ops_if_able", "Executor._wait_for_next_inflight_op"):
-                continue
-            okb = False
+            # the branch is taken only when one of the helpers returned true (whatever else is tested with it)
+            hc = [c for c in ast.walk(par.test) if isinstance(c, ast.Call) and A.res.is_call_to(c, "Executor._launch_ops_if_able", "Executor._wait_for_next_inflight_op")]
+            d_ = A.dnf(par.test, True, fi, inline=False)
+            in_body = any(x is b for st_ in par.body for x in ast.walk(st_))
+            if not (in_body and hc and d_ and all(any((A.atom(c, fi)[0], True) in cj for c in hc) for cj in d_)):
+                okb = False
     rets = [x for x in walk_local(loop) if isinstance(x, ast.Return)]
     rep.check(okb and not rets, "EX8", "loop exits", loop, "the loop is left early only on the stop flag returned by the helpers",
               "the main loop can be left early for another reason")
@@ -582,6 +587,12 @@ def rule_ex8(A: Analysis, rep, F: ExecFacts):
     hdr = [n for n in g.nodes if n.kind == "test" and n.info is loop][0]
     for n in gw:
         guards = A.path_guards(g, hdr, n, fi)
+        if n.kind == "test":
+            # the call sits inside a test: add the condition under which it is evaluated at all
+            from ..analysis import _and_all
+            wc = [c for c in ast.walk(n.ast) if isinstance(c, ast.Call) and A.res.is_call_to(c, "Executor._wait_for_next_inflight_op")]
+            if wc:
+                guards = _and_all([guards, A.eval_guard(n.ast, wc[0], fi)])
         rep.check(bool(guards) and all(("empty(self._inflight_ops)", False) in c for c in guards), "EX8", "wait only if in flight", n.ast,
                   "the blocking wait is reached only when an op is in flight",
                   "the wait step can be reached with nothing in flight (blocks forever): [%s]" % " | ".join(fmt_conj(c) for c in guards))
@@ -708,7 +719,7 @@ def rule_ex10(A: Analysis, rep, F: ExecFacts):
             if not calls:
                 continue
             if n.kind == "test":
-                false_edges = [e for e in A.edges_implying(g, fi, A.atom(calls[0], fi)[0], False) if e[0] is n]
+                false_edges = A.edges_not_true(g, fi, calls[0])
             elif isinstance(n.ast, ast.Assign) and n.ast.value is calls[0] and isinstance(n.ast.targets[0], ast.Name):
                 false_edges = A.edges_implying(g, fi, "t(%s)" % n.ast.targets[0].id, False)
             else:
